@@ -235,10 +235,12 @@ func kindTransaction(name string, unprotected bool, to *common.Address, amount *
 	base := &rawTx{Nonce: 7, Price: bi(types.ParGasPrice), Gas: gas, To: to, Amount: amount, Payload: payload, V: bi(0), R: bi(0), S: bi(0)}
 	g := func(c carrier) *rawTx { return c.(*rawTx) }
 	k := &acctKind{name: name, via: "txdata", unprotected: unprotected, checkBasic: !unprotected, pairs: !unprotected,
-		setSig:  func(c carrier, r, s, v *big.Int) { g(c).R, g(c).S, g(c).V = r, s, v },
-		encode:  func(c carrier) ([]byte, error) { return ser.EncodeToBytes(g(c)) },
-		decode:  decodeTx,
-		sender:  func(tx types.Tx, sg types.STDSigner) (common.Address, error) { return tx.(*types.Transaction).Sender(sg) },
+		setSig: func(c carrier, r, s, v *big.Int) { g(c).R, g(c).S, g(c).V = r, s, v },
+		encode: func(c carrier) ([]byte, error) { return ser.EncodeToBytes(g(c)) },
+		decode: decodeTx,
+		sender: func(tx types.Tx, sg types.STDSigner) (common.Address, error) {
+			return tx.(*types.Transaction).Sender(sg)
+		},
 	}
 	k.muts = cat(
 		mutU64("AccountNonce", func(c carrier) *uint64 { return &g(c).Nonce }),
@@ -301,7 +303,9 @@ func kindToken(name string, unprotected bool) *acctKind {
 			}
 			return tx, nil
 		},
-		sender: func(tx types.Tx, sg types.STDSigner) (common.Address, error) { return tx.(*types.TokenTransaction).Sender(sg) },
+		sender: func(tx types.Tx, sg types.STDSigner) (common.Address, error) {
+			return tx.(*types.TokenTransaction).Sender(sg)
+		},
 	}
 	k.muts = cat(
 		mutAddr("TokenAddress", func(c carrier) *common.Address { return &g(c).Token }, addrTok2),
@@ -431,7 +435,11 @@ func payloadMutsUTXO(proto *types.UTXOTransaction) []fieldMut {
 		m = append(m, fieldMut{"Outputs", "swap-0-1", func(c carrier) bool { t := g(c); t.Outputs[0], t.Outputs[1] = t.Outputs[1], t.Outputs[0]; return true }},
 			fieldMut{"Outputs", "drop-last", func(c carrier) bool { t := g(c); t.Outputs = t.Outputs[:len(t.Outputs)-1]; return true }})
 	}
-	m = append(m, fieldMut{"Outputs", "duplicate-last", func(c carrier) bool { t := g(c); t.Outputs = append(t.Outputs, t.Outputs[len(t.Outputs)-1]); return true }})
+	m = append(m, fieldMut{"Outputs", "duplicate-last", func(c carrier) bool {
+		t := g(c)
+		t.Outputs = append(t.Outputs, t.Outputs[len(t.Outputs)-1])
+		return true
+	}})
 	m = append(m, mutAddr("TokenID", func(c carrier) *common.Address { return &g(c).TokenID }, addrTok2)...)
 	m = append(m, mutKey("RKey", func(c carrier) *[32]byte { return k32(&g(c).RKey) }, func(c carrier) [32]byte { return [32]byte(g(c).AddKeys[0]) })...)
 	for i := range proto.AddKeys {
@@ -474,7 +482,9 @@ func kindUTXO(name string, unprotected bool, unsignedWire []byte, finish func(tx
 			}
 			return tx, nil
 		},
-		sender: func(tx types.Tx, sg types.STDSigner) (common.Address, error) { return tx.(*types.UTXOTransaction).Sender(sg) },
+		sender: func(tx types.Tx, sg types.STDSigner) (common.Address, error) {
+			return tx.(*types.UTXOTransaction).Sender(sg)
+		},
 	}
 	proto := mustDecodeUTXO(unsignedWire)
 	k.muts = payloadMutsUTXO(proto)
